@@ -226,7 +226,8 @@ Findings(l) ==
                              /\ e.res.msgs[1].sender = Contract), "msg.tf_create")
        IN {[l |-> l, kind |-> "diff", m |-> "instantiate", atom |-> a,
             props |-> IF a \in {"wire.canon", "wire.url", "msg.tf_create"} THEN {"C19"}
-                      ELSE IF a = "c.stopped" THEN {"C10"} ELSE {"C14"}] : a \in atoms}
+                      ELSE IF a = "c.stopped" THEN {"C10"}
+                      ELSE IF a = "c.cfg" THEN {"C14", "C19"} ELSE {"C14"}] : a \in atoms}
           \cup {[l |-> l, kind |-> "inv", m |-> "instantiate", atom |-> n, props |-> InvProps(o)] : n \in InvNames(o)}
   ELSE
   LET pre == W[e.parent]
